@@ -10,7 +10,7 @@ from ..properties import (
     HashesProperty, IDProperty, ListProperty, Property, ReferenceProperty,
     SelectorProperty, StringProperty, TimestampProperty, TypeProperty,
 )
-from ..utils import NOW, _get_dict
+from ..utils import NOW, Precision, _get_dict
 from .base import _STIXBase20
 from .vocab import HASHING_ALGORITHM
 
@@ -25,6 +25,10 @@ def _should_set_millisecond(cr, marking_type):
             return True
         else:
             return False
+    # A STIXdatetime which already has millisecond precision keeps it (e.g.
+    # when an object is copied or versioned).
+    if getattr(cr, 'precision', None) == Precision.MILLISECOND:
+        return True
     # A datetime with a sub-second part serializes with a "." and would be
     # switched to millisecond precision when parsed back (see above), so do
     # the same now; otherwise serializing is not stable across a round trip.
